@@ -38,6 +38,10 @@ BASES = {
     "custom-vtimezone-after": cal(["BEGIN:VEVENT", "UID:5a", "DTSTART;TZID=Custom/C09:20240701T120000", "RDATE;TZID=Custom/C09:20240702T120000", "END:VEVENT"], CUSTOM_TZ),
     "custom-vtimezone-between": cal(["BEGIN:VTODO", "UID:5b", "DUE;TZID=Custom/C09:20240701T120000", "END:VTODO"], CUSTOM_TZ,
                                     ["BEGIN:VEVENT", "UID:5c", "DTSTART;TZID=Custom/C09:20241201T120000", "END:VEVENT"]),
+    # X- properties an application may have registered a value type for (mc/custom.py does, in the second configuration):
+    # typed or not, the name's letter case changes nothing
+    "registrable-x-properties": cal(["BEGIN:VEVENT", "UID:17", "X-SEATS:007", "X-PUBLISHED:20240309T123000Z", "X-SEATS;X-P=1:12", "END:VEVENT"],
+                                    ["BEGIN:X-COMP", "X-SEATS:3", "BEGIN:X-BOX", "X-PUBLISHED:20240310T000000Z", "END:X-BOX", "END:X-COMP"]),
     "categories": cal(["BEGIN:VEVENT", "UID:6", "CATEGORIES:Work,Private Life,Xyz", "RESOURCES:Beamer,Room", "CATEGORIES;LANGUAGE=de:Arbeit", "END:VEVENT"]),
     "alarms": cal(["BEGIN:VEVENT", "UID:7", "DTSTART;TZID=Europe/Berlin:20240601T100000", "BEGIN:VALARM", "ACTION:DISPLAY", "TRIGGER;RELATED=END:-PT15M", "REPEAT:2", "DURATION:PT5M", "END:VALARM", "BEGIN:VALARM", "ACTION:AUDIO", "TRIGGER;VALUE=DATE-TIME:20240601T070000Z", "END:VALARM", "END:VEVENT"]),
     "unknown-components": cal(["BEGIN:X-OUTER", "X-A:1", "BEGIN:FOO", "X-B;X-P=q:2", "DTSTART;TZID=Europe/Berlin:20240601T100000", "END:FOO", "END:X-OUTER"]),
